@@ -13,5 +13,6 @@ CONSTANTS
   InitRate = 6000
   F6Quirk = FALSE
   F7Quirk = FALSE
+  PoorShare = 0
 INVARIANTS NoError
 CHECK_DEADLOCK FALSE
